@@ -349,7 +349,7 @@ def run(ctx):
     emu_dis = 0
     if emu is None:
         ctx.notes.append(f"emulator run unavailable: {emu_err}")
-    elif model_ok:
+    elif model_ok and info["ok"] and not spec_fail and not model_fail and not model_dis:
         em = model_eval(ctx, [{"form": "3", "args": list(t)} for t in emu_ranges])
         for t, got, m in zip(emu_ranges, emu, em):
             if got != m[1]:
